@@ -266,7 +266,7 @@ func init() {
 			"Concurrent part (35% of the runs): 5-12 (thorough 8-37) rounds of 2-4 overlapping queue/store/retrieve/remove/get calls interleaved at Badger transaction boundaries by a seeded scheduler; each round must be linearizable against the credit model; " +
 			"a run is non-trivial if at least one retrieval returned a transaction; distinct = distinct canonical-log digests among non-trivial runs",
 		Components: map[string]string{"storage.BadgerStore cache API (real Badger on tmpfs)": "real", "kernel/p2p": "not involved", "power loss of the un-synced cache DB": "modelled by deleting the cache directory between close and reopen"},
-		Assume:     []string{"A1 Badger commit atomic", "A3 overlap finer than one Store call is equivalent to a serial order or ErrConflict", "cache TTL (real time, 2h) never fires within a run"},
+		Assume:     []string{"A1 Badger commit atomic", "A3 (overlap finer than one Store call is equivalent to a serial order or ErrConflict) is assumed by the sequential part only; the concurrent part tests it at Badger-transaction granularity", "cache TTL (real time, 2h) never fires within a run"},
 		Gen:        c23Gen,
 		Exec:       c23Exec,
 		QuickRuns:  400, ThoroughRuns: 20000,
